@@ -7,7 +7,7 @@ to use for correlation fuction measurements.
 from __future__ import annotations
 
 import logging
-from typing import TYPE_CHECKING, get_args
+from typing import TYPE_CHECKING
 
 import astropy.cosmology
 
@@ -96,9 +96,11 @@ def parse_cosmology(cosmology: TypeCosmology | str | None) -> TypeCosmology:
     elif isinstance(cosmology, str):
         return yaml_to_cosmology(cosmology)
 
-    elif not isinstance(cosmology, get_args(TypeCosmology)):
-        which = ", ".join(str(c) for c in get_args(TypeCosmology))
-        raise ConfigError(f"'cosmology' must be instance of: {which}")
+    elif not isinstance(cosmology, (astropy.cosmology.FLRW, CustomCosmology)):
+        # NOTE: TypeCosmology holds a forward reference, not usable with isinstance
+        raise ConfigError(
+            "'cosmology' must be instance of: astropy.cosmology.FLRW, CustomCosmology"
+        )
 
     return cosmology
 
